@@ -73,7 +73,9 @@ func gset(x *Exec, st *State, obj, ref, val string) {
 	x.vc.store(st, ghostObj(x, obj), ref, Val{ic(x.vc.S.def("g_"+strings.ToLower(obj[3:]), ic(val)).T)})
 }
 
-func gadd(x *Exec, st *State, obj, ref, by string) { gset(x, st, obj, ref, add(gget(x, st, obj, ref), by)) }
+func gadd(x *Exec, st *State, obj, ref, by string) {
+	gset(x, st, obj, ref, add(gget(x, st, obj, ref), by))
+}
 
 func raise(x *Exec, st *State, g string, cond string) {
 	st.Ghost[g] = x.vc.S.def("g_"+g, ic(ite(cond, "1", ghost(st, g)))).T
